@@ -150,3 +150,34 @@ def sqlRun {R : Type} (db : Db R) (stmts : List (SqlStmt R)) (failAt : Option Na
   | none => db'
 
 end BlackIt.Checkpoint
+
+/-! ### the process dies during a SQLite save: rollback journal
+
+One transaction of the save as the file system sees it (`strace` of the real save: `openat journal`, `pwrite64 journal`…,
+`pwrite64 database`…, `unlink journal`): `j` journal records with the original content of the pages, then `n` database
+pages overwritten, then the journal deleted — the commit point. -/
+namespace BlackIt.Checkpoint.Journal
+
+/-- what is on disk after the first `k` of the `j + n + 1` file operations -/
+structure Crash where
+  jw : Nat          -- journal records written
+  pw : Nat          -- database pages already overwritten
+  deleted : Bool    -- journal deleted (transaction committed)
+deriving DecidableEq, Repr
+
+def crashAt (j n k : Nat) : Crash := ⟨min k j, min (k - j) n, decide (j + n + 1 ≤ k)⟩
+
+inductive Outcome | prev | new | mixture
+deriving DecidableEq, Repr
+
+/-- what the loader returns.  `rollsBack = true`: the database is opened normally, a complete journal found next to it is
+replayed first (SQLite's own recovery, trusted).  `false`: the database file is read as it is — opened `immutable`, or
+written without a journal. -/
+def load (j n : Nat) (rollsBack : Bool) (c : Crash) : Outcome :=
+  if c.deleted then .new
+  else if c.pw = 0 then .prev
+  else if rollsBack && c.jw == j then .prev
+  else if c.pw = n then .new
+  else .mixture
+
+end BlackIt.Checkpoint.Journal
